@@ -43,7 +43,7 @@ UNITS['flag'] = dict(
     harnesses={
         'c15_flag_set': dict(props=['C15', 'C14', 'C03']),
         'c15_flag_usize': dict(props=['C15', 'C14', 'C03']),
-        'c15_cond_shutdown': dict(props=['C15', 'C14', 'C03'], panic_map=[(r'Function exit\(\) was invoked|std::process::exit', 'C15.UNDERSCORE')]),
+        'c15_cond_shutdown': dict(props=['C15', 'C14', 'C03'], panic_map=[(r'Function exit\(\) was invoked|std::process::exit', 'C15.UNDERSCORE'), (r'Function `\w+` with missing definition is unreachable', 'C15.ONLY-EXIT')]),
         'c16_cond_default': dict(props=['C16', 'C14']),
     })
 
